@@ -408,6 +408,10 @@ func indexCandidates(s *sx, out map[string]bool, bound map[string]bool) {
 			str := t.String()
 			if len(str) < 80 {
 				out[str] = true
+			} else if len(str) < 140 {
+				// long index terms (an index read from a ghost array of a long-named type) are kept apart:
+				// they are added after the regular candidates, never instead of them
+				out["\x00long:"+str] = true
 			}
 		}
 	}
@@ -691,13 +695,21 @@ func preprocess(pc []string, goal string, mode Mode, declSorts map[string]string
 		parsed = append(parsed, p)
 		hyps = append(hyps, c)
 	}
-	var base []string
+	var base, longC []string
 	for k := range candSet {
+		if strings.HasPrefix(k, "\x00long:") {
+			longC = append(longC, strings.TrimPrefix(k, "\x00long:"))
+			continue
+		}
 		base = append(base, k)
 	}
 	sort.Strings(base)
 	if len(base) > 8 {
 		base = base[:8]
+	}
+	sort.Strings(longC)
+	if len(longC) > 2 {
+		longC = longC[:2]
 	}
 	// index terms of the hypotheses (e.g. the s[i-1] the code read), shortest first
 	pcSet := map[string]bool{}
@@ -708,6 +720,9 @@ func preprocess(pc []string, goal string, mode Mode, declSorts map[string]string
 	}
 	var pcC []string
 	for k := range pcSet {
+		if strings.HasPrefix(k, "\x00long:") {
+			continue
+		}
 		if !candSet[k] {
 			pcC = append(pcC, k)
 		}
@@ -736,6 +751,9 @@ func preprocess(pc []string, goal string, mode Mode, declSorts map[string]string
 		add(b)
 	}
 	for _, b := range pcC {
+		add(b)
+	}
+	for _, b := range longC {
 		add(b)
 	}
 	for _, b := range base {
